@@ -7,10 +7,89 @@ package mitm
 
 // Thin contracts used by the proxy core (package martian).
 //@ func (*Config).TLSForHost
-//@   trusted
+//@   serves C06
+//@   requires c != nil
 //@   ensures result != nil
 //@ func (*Config).HandshakeErrorCallback
 //@   trusted
 //@ func (*Config).H2Config
 //@   trusted
 //@   ensures result != nil
+
+// ---------------------------------------------------------------------------------------------
+// C06: forged certificates. Cryptography is assumed (CreateCertificate signs what the template says; Verify is sound);
+// what is proved is which name is used where, that a cached certificate is only reused after it verified for that
+// name, and what goes into the template.
+
+//@ guarded_by Config.certs certmu C06
+//@ ghost field tls.Certificate.gIssuedFor string
+//@ ghost var lastVerifyErr error
+//@ ghost var lastVerifyLeaf *x509.Certificate
+//@ ghost var lastVerifyName string
+//@ ghost var lastVerifyRoots *x509.CertPool
+//@ ghost var splitHost string
+//@ ghost var splitErr error
+
+//@ extern func net.SplitHostPort
+//@   modifies splitHost, splitErr
+//@   ensures splitHost == result0 && splitErr == result2
+//@ extern func (*x509.Certificate).Verify
+//@   modifies lastVerifyErr, lastVerifyLeaf, lastVerifyName, lastVerifyRoots
+//@   ensures lastVerifyErr == result1 && lastVerifyLeaf == self && lastVerifyName == opts.DNSName && lastVerifyRoots == opts.Roots
+//@ extern func rand.Int
+//@   ensures (result1 == nil) == (result0 != nil)
+//@ extern func x509.CreateCertificate
+//@   ensures (result1 == nil) ==> len(result0) > 0
+//@ extern func x509.ParseCertificate
+//@   ensures (result1 == nil) == (result0 != nil)
+//@ extern iface crypto.Signer.Public
+
+// stripped(h): the name a certificate is looked up, issued and cached under (port removed when the input parses as
+// host:port).
+//@ pred certsOK(c *Config) = c != nil && c.certs != nil && c.ca != nil && c.priv != nil && !c.certmu.wheld && c.certmu.rheld == 0 &&
+//@      (forall k string :: has(c.certs, k) ==> c.certs[k] != nil && allocated(c.certs[k]) && c.certs[k].gIssuedFor == k && c.certs[k].Leaf != nil && c.certs[k].PrivateKey == iface(c.priv))
+
+//@ func (*Config).cert
+//@   serves C06
+//@   safe index
+//@   requires certsOK(c)
+//@   modifies c.certs[*], sync.RWMutex.wheld, sync.RWMutex.rheld, lastVerifyErr, lastVerifyLeaf, lastVerifyName, lastVerifyRoots, splitHost, splitErr, tls.Certificate.gIssuedFor
+//@   noframe
+//@   ensures[cache-stays-consistent] certsOK(c)
+//@   ensures[no-certificate-without-a-host] hostname == "" ==> result1 != nil && result0 == nil
+//@   ensures[certificate-or-error] (result1 == nil) == (result0 != nil)
+//@   ensures[issued-for-the-requested-name-port-stripped] result1 == nil ==> result0.gIssuedFor == ite(splitErr == nil, splitHost, hostname) && result0.Leaf != nil
+//@   ensures[cached-certificate-reused-only-after-it-verified] result1 == nil ==> fresh(result0) ||
+//@        (lastVerifyErr == nil && lastVerifyLeaf == result0.Leaf && lastVerifyName == result0.gIssuedFor && lastVerifyRoots == c.roots)
+//@   ensures[proxy-holds-the-key] result1 == nil ==> result0.PrivateKey == iface(c.priv)
+//@   ensures[new-certificate-cached-and-chain-ends-at-the-ca] result1 == nil && fresh(result0) ==> len(result0.Certificate) == 2 && has(c.certs, result0.gIssuedFor) && c.certs[result0.gIssuedFor] == result0
+//@   at call 0 of CreateCertificate before assert[signed-by-the-configured-ca] arg2 == c.ca && arg4 == iface(c.capriv) && arg1 == tmpl
+//@   at call 0 of CreateCertificate before assert[subject-alternative-name-matches-the-host-kind] (net.ParseIP(hostname) != nil ==> len(tmpl.IPAddresses) == 1 && len(tmpl.DNSNames) == 0) &&
+//@        (net.ParseIP(hostname) == nil ==> len(tmpl.DNSNames) == 1 && tmpl.DNSNames[0] == hostname && len(tmpl.IPAddresses) == 0)
+//@   at call 0 of CreateCertificate before assert[organization-from-the-configuration] len(tmpl.Subject.Organization) == 1 && tmpl.Subject.Organization[0] == c.org && tmpl.Subject.CommonName == hostname
+//@   at call 0 of Lock after set tlsc.gIssuedFor = hostname
+
+// The GetCertificate callbacks handed to crypto/tls: which name the certificate is issued for.
+//@ func (*Config).TLSForHost$1
+//@   serves C06
+//@   requires clientHello != nil && certsOK(c)
+//@   modifies c.certs[*], sync.RWMutex.wheld, sync.RWMutex.rheld, lastVerifyErr, lastVerifyLeaf, lastVerifyName, lastVerifyRoots, splitHost, splitErr, tls.Certificate.gIssuedFor
+//@   noframe
+//@   at call 0 of cert before assert[sni-else-the-connect-authority] arg0 == ite(clientHello.ServerName != "", clientHello.ServerName, hostname)
+//@   ensures[handshake-refused-when-no-host-is-known] clientHello.ServerName == "" && hostname == "" ==> result1 != nil && result0 == nil
+//@   ensures[certificate-or-error] (result1 == nil) == (result0 != nil)
+//@   ensures[issued-for-the-selected-host] result1 == nil ==> result0.gIssuedFor == ite(splitErr == nil, splitHost, ite(clientHello.ServerName != "", clientHello.ServerName, hostname))
+//@   ensures[cache-stays-consistent] certsOK(c)
+
+//@ func (*Config).TLS$1
+//@   serves C06
+//@   requires clientHello != nil && certsOK(c)
+//@   modifies c.certs[*], sync.RWMutex.wheld, sync.RWMutex.rheld, lastVerifyErr, lastVerifyLeaf, lastVerifyName, lastVerifyRoots, splitHost, splitErr, tls.Certificate.gIssuedFor
+//@   noframe
+//@   ensures[handshake-refused-without-sni] clientHello.ServerName == "" ==> result1 != nil && result0 == nil
+//@   ensures[certificate-or-error] (result1 == nil) == (result0 != nil)
+//@   ensures[issued-for-the-sni-name] result1 == nil ==> result0.gIssuedFor == ite(splitErr == nil, splitHost, clientHello.ServerName)
+//@   ensures[cache-stays-consistent] certsOK(c)
+
+//@ func (*Config).h2AllowedHost
+//@   trusted
